@@ -1203,7 +1203,13 @@ emittentativedefns(void)
 	struct decl *d;
 
 	for (d = tentativedefns; d; d = d->next) {
-		if (!d->defined)
-			defineobj(d, NULL, false, NULL);
+		if (d->defined)
+			continue;
+		if (d->type->kind == TYPEARRAY && d->type->incomplete && d->linkage == LINKEXTERN) {
+			/* 6.9.2p5: an array that is still of unknown size has one element (6.9.2p3: not with internal linkage) */
+			d->type->size = d->type->base->size;
+			d->type->incomplete = false;
+		}
+		defineobj(d, NULL, false, NULL);
 	}
 }
